@@ -29,7 +29,7 @@ def plan(ctx):
                                      "pre-warmed or empty; host deep-mutates earlier results or not (all symbolic; bodies run natively)",
                               desc=f"call sequences starting with {text!r}: cached parser == uncached parser, call by call"))
     obs.append(Obligation("cache.pairs", "xh", "c17", "pair_sequence", timeout=T * 4,
-                          bounds="24 pairs of texts (near-duplicates that differ where it matters: blank runs inside %names% and strings, case, comments; failing texts with open brackets / illegal characters followed by multi-line texts; names that look like bookkeeping keys); either order, parse or eval, repeated or not; cache pre-warmed with none / one / both, storing or dropping (all symbolic; bodies run natively)",
+                          bounds="29 pairs of texts (incl. very deep expressions, texts differing only in a line break) (near-duplicates that differ where it matters: blank runs inside %names% and strings, case, comments; failing texts with open brackets / illegal characters followed by multi-line texts; names that look like bookkeeping keys); either order, parse or eval, repeated or not; cache pre-warmed with none / one / both, storing or dropping (all symbolic; bodies run natively)",
                           desc="cached parser == uncached parser call by call; every string key left in the host's mapping (incl. by the constructor) behaves as a source text the same with and without the cache"))
     return {
         "obligations": obs, "uncovered": uncovered,
